@@ -7,10 +7,10 @@ from vlib import ref_ops
 from vlib.harness import Violation
 
 PID = "C24"
-RULE = ("(source key of one of the four curves, batch of 1..6 manager operations of every kind with fee / counter / gas_limit / "
+RULE = ("(source key of one of the four curves, batch of 1..6 (one case in nine: 7..50) manager operations of every kind with fee / counter / gas_limit / "
         "storage_limit left to the client, account counter on the node up to 2^64, amounts up to 2^63, node constants (hard gas / "
         "storage limits per operation as on mainnet or different), mode): mode = fill() "
-        "(default limits) or autofill() against a simulated node whose run_operation answers `applied` with generated "
+        "(default limits) or autofill() (default or caller-given gas_reserve / burn_reserve) against a simulated node whose run_operation answers `applied` with generated "
         "consumed_milligas (0 .. 1.04e9), paid_storage_size_diff, allocations and internal operation results. The group is then "
         "signed with the real key. Oracle: the node's default mempool rule evaluated independently on the SIGNED operation, in "
         "exact integer nanotez: sum(fee)*1000 >= 100000 + 1000*len(forged bytes + signature) + 100*sum(gas_limit); the byte "
@@ -68,7 +68,8 @@ def oracle(case):
     opg = OperationGroup(context=ctx, contents=[_blank(c) for c in case["contents"]])
     mode = case["mode"]
     try:
-        filled = opg.fill() if mode == "fill" else opg.autofill()
+        kw = {k: v for k, v in (("gas_reserve", case.get("gas_reserve")), ("burn_reserve", case.get("burn_reserve"))) if v is not None}
+        filled = opg.fill() if mode == "fill" else opg.autofill(**kw)
         signed = filled.sign()
         payload = signed.binary_payload()
     except Exception as e:
@@ -101,9 +102,9 @@ def replay(case):
 
 
 @st.composite
-def cases(draw, curves, max_n):
+def cases(draw, curves, max_n, big=True):
     curve, sec = draw(gen_keys.curve_and_secret(curves))
-    n = draw(st.sampled_from([1, 1, 2, 2, 3, 4, max_n]))
+    n = draw(st.sampled_from([1, 1, 2, 2, 3, 4, max_n, max_n] + ([draw(st.integers(7, 50))] if big else [])))
     nat = st.one_of(st.integers(0, 300), st.integers(0, 2 ** 20), st.sampled_from([2 ** 32, 2 ** 62, 2 ** 63 - 1]))
     kinds = [k for k in KINDS if not (k == "reveal" and curve == "BL")]
     contents = [draw(gen_ops.manager_content(kinds=kinds, nat=nat)) for _ in range(n)]
@@ -113,19 +114,38 @@ def cases(draw, curves, max_n):
     sim = [{"milligas": draw(st.one_of(st.integers(0, 5_000_000), st.integers(0, 1_040_000_000), st.sampled_from([0, 999, 1000, 1001, 1_040_000_000]))),
             "storage": draw(st.sampled_from([0, 0, 1, 67, 257, 4000])), "alloc": draw(st.booleans()),
             "internal": draw(st.lists(st.integers(0, 3_000_000), max_size=2))} for _ in range(n)]
+    if big and draw(st.integers(0, 3)) == 0:
+        # homogeneous batch (airdrop / payout): one operation repeated n times, every simulation consuming the same gas; rounding
+        # losses of every content then point the same way (gas limits ending in 9 lose most against the node's rounding up)
+        n = draw(st.integers(2, 50))
+        c0 = draw(gen_ops.manager_content(kinds=["transaction", "transaction", "delegation", "origination"], nat=nat))
+        contents = [dict(c0) for _ in range(n)]
+        units = draw(st.integers(0, 4000)) * 10 + draw(st.sampled_from([9, 9, 9, 1, 5, 0, 8]))
+        mg = max(0, units * 1000 - draw(st.sampled_from([0, 0, 1, 100, 999])))
+        sim = [{"milligas": mg, "storage": draw(st.sampled_from([0, 0, 67])), "alloc": False, "internal": []} for _ in range(n)]
     constants = {}
     if draw(st.integers(0, 2)) == 0:  # protocol constants differ between networks and change with upgrades
         constants = {"hard_gas_limit_per_operation": draw(st.sampled_from([800_000, 1_040_300, 1_300_000, 5_200_000])),
                      "hard_storage_limit_per_operation": draw(st.sampled_from([30_000, 60_000, 120_000]))}
-    return {"curve": curve, "secret": sec.hex(), "contents": contents, "sim": sim, "mode": draw(st.sampled_from(["fill", "autofill"])),
-            "constants": constants,
+    reserves = {}
+    if draw(st.integers(0, 2)) == 0:  # the caller's safety margins for simulated limits (autofill / send take them)
+        reserves = {"gas_reserve": draw(st.sampled_from([0, 1, 99, 150, 500, 1111, 5000, 20000])),
+                    "burn_reserve": draw(st.sampled_from([None, 0, 1000]))}
+    return {"curve": curve, "secret": sec.hex(), "contents": contents, "sim": sim, "mode": draw(st.sampled_from(["fill", "autofill", "autofill"])),
+            "constants": constants, **reserves,
             "node_counter": draw(st.one_of(st.integers(0, 1000), st.sampled_from([127, 128, 2 ** 14 - 1, 2 ** 32, 2 ** 63, 2 ** 64 - 2])))}
 
 
 def _prop(case, stats):
     fees, need, size, gas = oracle(case)
     big = case["node_counter"] >= 2 ** 32 or any(int(c.get("amount", "0")) >= 2 ** 32 for c in case["contents"])
-    nt = len(case["contents"]) >= 2 or case["curve"] == "BL" or big
+    nt = len(case["contents"]) >= 2 or case["curve"] == "BL" or big or case.get("gas_reserve") is not None
+    if len(case["contents"]) > 6:
+        stats.label("batch>6")
+    if len(case["contents"]) > 1 and all(x == case["sim"][0] for x in case["sim"]):
+        stats.label("homogeneous-batch")
+    if case.get("gas_reserve") is not None:
+        stats.label("caller-reserves")
     stats.case(case, nt, "%s:%s:n=%s" % (case["mode"], case["curve"], "1" if len(case["contents"]) == 1 else "2+"),
                sample={"mode": case["mode"], "curve": case["curve"], "kinds": [c["kind"] for c in case["contents"]],
                        "fee": fees, "minimum_nanotez": need, "size": size, "gas": gas})
@@ -134,7 +154,7 @@ def _prop(case, stats):
 
 def run(h):
     h.run_given(lambda: cases(["ed", "sp", "p2"], 6), _prop, h.n(60, 4000), shards=16, name="fast")
-    h.run_given(lambda: cases(["BL"], 6), _prop, h.n(4, 120), shards=16, name="bls", shrink=False)
+    h.run_given(lambda: cases(["BL"], 6, big=False), _prop, h.n(4, 120), shards=16, name="bls", shrink=False)
     h.stats.extra.pop("margin_mutez_min", None)
     h.assumptions.append("the node's rule is the Octez default (minimal_fees 100 mutez, 1000 nanotez per byte, 100 nanotez per gas unit) "
                          "evaluated on the signed bytes; the simulated node is vlib/fake_node.py")
